@@ -4,6 +4,7 @@ import (
 	"fmt"
 	"math/rand"
 	"sort"
+	"strings"
 )
 
 const two32 = uint64(1) << 32
@@ -187,6 +188,38 @@ func generate(rnd *rand.Rand, thorough bool) []*Prog {
 							st2.V2 ^= 1 << uint(rnd.Intn(8*oi.w)) // one bit off: must not store
 						}
 						mk("catseq", uint32(a8), 0, acc("i64.store", "p", 0, 0, pre), st2, acc("i64.load", "p", 0, 0, 0))
+					}
+				}
+			}
+		}
+		// --- whose memory: shared, imported from another instance, both (the base and the length reach compiled
+		// code through other fields of the module context; a shared memory never moves).  Catalogue at the two
+		// decisive addresses plus the growth templates.
+		if sc.pages == 1 || (thorough && sc.pages == 2) {
+			l := int64(L)
+			for _, mode := range []string{"shared", "imported", "imported-shared"} {
+				mkm := func(tmpl string, p uint32, body ...Stmt) {
+					out = append(out, &Prog{Tmpl: tmpl + "/" + mode, Pages: sc.pages, Max: mx, Alloc: true, Move: !strings.Contains(mode, "shared"), P: p, Mem: mode, Body: body})
+				}
+				for _, op := range catNames {
+					w := int64(ops[op].w)
+					for _, ea := range []int64{l - w, l - w + 1, l} {
+						if ea < 0 {
+							continue
+						}
+						st := acc(op, "p", 0, 0, val())
+						st.V2 = val()
+						mkm("cat", uint32(ea), st)
+					}
+				}
+				for _, op := range []string{"l8", "l32", "s64", "l128"} {
+					w := int64(ops[op].w)
+					for _, how := range []string{"grow", "callgrow"} {
+						g := Stmt{K: how, B: 1}
+						if l-w >= 0 {
+							mkm(how+"between", uint32(l-w), acc(op, "p", 0, 0, val()), g, acc(op, "p", 0, 65536, val()), acc(op, "p", 0, 0, val()))
+							mkm(how+"first", uint32(l), g, acc(op, "p", 0, 0, val()), acc(op, "p", 0, uint32(65536-w+1), val()))
+						}
 					}
 				}
 			}
